@@ -660,6 +660,8 @@ def oracle(line, res):
                 x, y = I(R[1]), I(R[2])
                 if x * x + n * y * y != p:
                     return bad("ibz_cornacchia_prime: false solution")
+            elif p > 2 and n >= 1 and math.gcd(n, p) == 1 and is_prime(p) and py_cornacchia(n, p) is not None:
+                return bad("ibz_cornacchia_prime: reports failure although x^2 + n y^2 = p has the solution %s" % (py_cornacchia(n, p),))
         elif op == "cornsp":
             n, p, e = I(args[0]), I(args[1]), I(args[2])
             if R[0] == "1":
@@ -751,6 +753,44 @@ def oracle(line, res):
             return bad("unknown op in oracle")
     except (IndexError, ValueError):
         return bad("unparsable result %r" % res)
+    return None
+
+
+def py_sqrt_mod(a, p):
+    """square root of a modulo an odd prime p (Tonelli-Shanks), or None"""
+    a %= p
+    if a == 0:
+        return 0
+    if pow(a, (p - 1) // 2, p) != 1:
+        return None
+    q, e = p - 1, 0
+    while q % 2 == 0:
+        q //= 2; e += 1
+    z = 2
+    while pow(z, (p - 1) // 2, p) != p - 1:
+        z += 1
+    c, x, t, m = pow(z, q, p), pow(a, (q + 1) // 2, p), pow(a, q, p), e
+    while t != 1:
+        i, t2 = 0, t
+        while t2 != 1:
+            t2 = t2 * t2 % p; i += 1
+        b = pow(c, 1 << (m - i - 1), p)
+        x, t, c, m = x * b % p, t * b * b % p, b * b % p, i
+    return x
+
+
+def py_cornacchia(n, p):
+    """independent implementation: a solution of x^2 + n y^2 = p (p odd prime, gcd(n,p)=1) or None"""
+    r = py_sqrt_mod(-n, p)
+    if r is None:
+        return None
+    for r0 in (r, p - r):
+        a, b = p, r0
+        while b * b >= p:
+            a, b = b, a % b
+        rem = p - b * b
+        if rem % n == 0 and is_square(rem // n):
+            return b, math.isqrt(rem // n)
     return None
 
 
